@@ -157,7 +157,12 @@ func init() {
 	add("TempRoot", func(fr *frame, a []value) value { return "/zzv" })
 	add("PutFile", func(fr *frame, a []value) value {
 		fr.i.fsSet(a[0].(string), a[1].(string))
+		fr.i.fsSet(fsWrittenKey+a[0].(string), "")
 		return nil
+	})
+	add("FileWritten", func(fr *frame, a []value) value {
+		v, _ := fr.i.fsGet(fsWrittenKey + a[0].(string))
+		return v == "1"
 	})
 	add("GetFile", func(fr *frame, a []value) value {
 		v, ok := fr.i.fsGet(a[0].(string))
